@@ -450,6 +450,21 @@ func c02bytes(r *Rec, mup *sync.Mutex, validators []*lh.VerifNode) int {
 				}
 			}
 		}
+		// every aligned 32-bit word replaced by a boundary value (length / offset fields: zero, huge, wrapping)
+		for off := 0; off+4 <= len(proof); off += 4 {
+			for _, w := range []uint32{0, 0x7fffffff, 0x80000000, 0xfffffff8, 0xfffffffc, 0xfffffffd, 0xffffffff} {
+				m := append([]byte{}, proof...)
+				m[off], m[off+1], m[off+2], m[off+3] = byte(w), byte(w>>8), byte(w>>16), byte(w>>24)
+				if c02eval(r, mup, v, d.Committee, m, blk, prev, d.Soft, nil, fmt.Sprintf("word/b%d/%d/%x", bi, off, w)) {
+					byteAccepted++
+				}
+				if off+4 <= len(prev) {
+					pm := append([]byte{}, prev...)
+					pm[off], pm[off+1], pm[off+2], pm[off+3] = byte(w), byte(w>>8), byte(w>>16), byte(w>>24)
+					c02eval(r, mup, v, d.Committee, proof, blk, pm, d.Soft, nil, fmt.Sprintf("prevword/b%d/%d/%x", bi, off, w))
+				}
+			}
+		}
 		// mutated previous proof
 		for off := 0; off < len(prev); off++ {
 			m := append([]byte{}, prev...)
@@ -464,7 +479,7 @@ func init() { checks["C12:api"] = c12api }
 
 // C12 (API half): ValidateBlockConsensus and GetMemberIdsFromBlockProof tolerate every byte string.
 func c12api(r *Rec, replay map[string]interface{}) {
-	r.Rule = "every truncation and every offset x {0x00,0xFF,+1,-1} mutation of six base block proofs (and of the previous proof) through ValidateBlockConsensus (strict and soft) and GetMemberIdsFromBlockProof; plus nil / empty / one-byte proofs and nil block: no panic, and acceptance only of genuine certificates. distinct_nontrivial = distinct mutated byte strings"
+	r.Rule = "every truncation and every offset x {0x00,0xFF,+1,-1} mutation of six base block proofs (and of the previous proof) through ValidateBlockConsensus (strict and soft) and GetMemberIdsFromBlockProof; every aligned 32-bit word of those proofs replaced by a boundary value {0, 2^31-1, 2^31, 2^32-8, 2^32-4, 2^32-3, 2^32-1}; every proof and previous proof of one to three 32-bit words over a 14-value boundary grid; plus nil / empty / one-byte proofs and nil block: no panic, and acceptance only of genuine certificates. distinct_nontrivial = distinct mutated byte strings"
 	validators := make([]*lh.VerifNode, len(c02committees))
 	for i, c := range c02committees {
 		validators[i] = c02validator(c)
@@ -479,6 +494,29 @@ func c12api(r *Rec, replay map[string]interface{}) {
 		for _, soft := range []bool{false, true} {
 			c02eval(r, &mu, validators[0], 0, p, kit.NewBlock(c02height, "B"), nil, soft, nil, fmt.Sprintf("tiny/%x/%v", p, soft))
 			c02eval(r, &mu, validators[0], 0, p, nil, nil, soft, nil, fmt.Sprintf("tiny-nilblock/%x/%v", p, soft))
+		}
+	}
+	// every proof (and previous proof) of one, two or three little-endian 32-bit words over a boundary grid
+	wg := []uint32{0, 1, 2, 3, 4, 5, 8, 0x10, 0x7fffffff, 0x80000000, 0xfffffff8, 0xfffffffc, 0xfffffffd, 0xffffffff}
+	le := func(ws ...uint32) []byte {
+		var b []byte
+		for _, w := range ws {
+			b = append(b, byte(w), byte(w>>8), byte(w>>16), byte(w>>24))
+		}
+		return b
+	}
+	goodProof, goodBlk, _ := c02build(c02desc{0, 0b0111, "none", 3, true, 0, true, 0, "valid", "nil", false, false})
+	try := func(p []byte) {
+		c02eval(r, &mu, validators[0], 0, p, kit.NewBlock(c02height, "B"), nil, false, nil, fmt.Sprintf("words/%x", p))
+		c02eval(r, &mu, validators[0], 0, goodProof, goodBlk, p, true, nil, fmt.Sprintf("prevwords/%x", p))
+	}
+	for _, a := range wg {
+		try(le(a))
+		for _, b := range wg {
+			try(le(a, b))
+			for _, c3 := range wg {
+				try(le(a, b, c3))
+			}
 		}
 	}
 	r.Sample(map[string]interface{}{"case": "truncation of a valid 4-member proof to 17 bytes", "expect": "error, no panic"})
